@@ -248,6 +248,22 @@ class TheoryOracle(walkers.DagWalker):
         return theory_out
         rtype = formula.symbol_name()
 
+    @walkers.handles(op.INT_TO_STR)
+    def walk_int_to_str(self, formula: FNode, args: List[Theory], **kwargs) -> Theory:
+        #pylint: disable=unused-argument
+        """Extends the Theory with Strings (the result is a String)."""
+        theory_out = args[0].set_strings() # This makes a copy of args[0]
+        return theory_out
+
+    @walkers.handles(op.QUANTIFIERS)
+    def walk_quantifier(self, formula: FNode, args: List[Theory], **kwargs) -> Theory:
+        #pylint: disable=unused-argument
+        """Extends the Theory with the types of the bound variables."""
+        theory_out = args[0].copy()
+        for v in formula.quantifier_vars():
+            theory_out = theory_out.combine(self._theory_from_type(v.symbol_type()))
+        return theory_out
+
     @walkers.handles([op.STR_LENGTH, op.STR_INDEXOF, op.STR_TO_INT])
     def walk_str_int(self, formula: FNode, args: List[Theory], **kwargs) -> Theory:
         theory_out = self.walk_combine(formula, args, **kwargs)
